@@ -129,9 +129,10 @@ func runC12(w *World) {
 	w.AddAccount("guest", "Guest", "", rp.Access{})
 	w.StartServer()
 
-	chatID := map[int][]byte{}        // slot -> chat id
-	periods := map[[2]int][]*period{} // (slot, client) -> membership periods
-	loginRet := make([]uint64, n)     // step at which the login reply arrived (0 = never)
+	chatID := map[int][]byte{}          // slot -> chat id
+	toldByJoin := map[[2]int][]string{} // (slot, client) -> subjects carried by its join replies
+	periods := map[[2]int][]*period{}   // (slot, client) -> membership periods
+	loginRet := make([]uint64, n)       // step at which the login reply arrived (0 = never)
 	loginInv := make([]uint64, n)
 	quit := make([]bool, n)
 	uid := make([]uint16, n)
@@ -225,7 +226,10 @@ func runC12(w *World) {
 					periods[[2]int{op.N[0], idx}] = append(periods[[2]int{op.N[0], idx}], p)
 					p.join.ret = ^uint64(0)
 					m := &c12Msg{kind: "joinnote", slot: op.N[0], sender: idx, about: uid[idx], iv: ival{inv: w.Sim.Step}}
-					_, ok := c.Do(rp.TJoinChat, rp.F(rp.FChatID, id))
+					jrep, ok := c.Do(rp.TJoinChat, rp.F(rp.FChatID, id))
+					if sub, has := jrep.Get(rp.FChatSubject); ok && has {
+						toldByJoin[[2]int{op.N[0], idx}] = append(toldByJoin[[2]int{op.N[0], idx}], string(sub))
+					}
 					p.join.ret = w.Sim.Step
 					m.iv.ret = w.Sim.Step
 					if ok {
@@ -431,6 +435,59 @@ func runC12(w *World) {
 				case !m.refused && cnt == 0 && connectedThroughout && memberThroughout(m.slot, r, m.iv):
 					w.Violate("c12-"+m.kind+"-missing", "client %d, a member of chat slot %d throughout, did not receive %s %s", r, m.slot, m.kind, m.tag)
 				}
+			}
+		}
+	}
+	// the current subject reaches everybody who is a member once the change is complete: a client whose join
+	// overlaps the last subject change of a chat is told the new subject by its join reply or by a notice
+	for slot := range chatID {
+		var last *c12Msg
+		for _, m := range msgs {
+			if m.kind == "subject" && m.slot == slot && !m.refused && (last == nil || m.iv.inv > last.iv.inv) {
+				last = m
+			}
+		}
+		if last == nil {
+			continue
+		}
+		alone := true
+		for _, m := range msgs {
+			if m != last && m.kind == "subject" && m.slot == slot && m.iv.ret >= last.iv.inv {
+				alone = false // two subject changes in flight at once: no single current subject to demand
+			}
+		}
+		if !alone {
+			continue
+		}
+		for r, c := range w.Clients {
+			if r >= n || quit[r] || loginRet[r] == 0 {
+				continue
+			}
+			ps := periods[[2]int{slot, r}]
+			if len(ps) == 0 {
+				continue
+			}
+			p := ps[len(ps)-1]
+			if p.join.ret == ^uint64(0) || p.leave != nil {
+				continue // never completed the join, or left again
+			}
+			told := false
+			for _, sub := range toldByJoin[[2]int{slot, r}] {
+				told = told || sub == last.payload
+			}
+			for _, rc := range c.Inbox {
+				cid, _ := rc.T.Get(rp.FChatID)
+				sub, _ := rc.T.Get(rp.FChatSubject)
+				if rc.T.Type == rp.TNotifyChatSubject && bytes.Equal(cid, chatID[slot]) && string(sub) == last.payload {
+					told = true
+				}
+			}
+			if r == last.sender {
+				continue
+			}
+			w.Probe("subject_currency_checks")
+			if !told {
+				w.Violate("c12-member-never-told-current-subject", "client %d is a member of chat slot %d (joined at steps %d..%d) but was never told its current subject %q (set at steps %d..%d): neither by its join reply nor by a notice", r, slot, p.join.inv, p.join.ret, last.payload, last.iv.inv, last.iv.ret)
 			}
 		}
 	}
